@@ -44,6 +44,15 @@ class FakeFuture(asyncio.Future):
         if self.state == "pending":
             self.state = "cancelled"
 
+    def result(self):
+        if self.state == "result":
+            return self.value
+        if self.state == "exception":
+            raise self.value
+        if self.state == "cancelled":
+            raise asyncio.CancelledError()
+        raise asyncio.InvalidStateError("Result is not set.")
+
 
 class FakeTask:
     def __init__(self, coro):
